@@ -46,7 +46,7 @@
          typing and sendable packets (Go value ranges, maxPackageLength). *)
 From Coq Require Import List NArith ZArith Bool.
 From TarsV Require Import Gen.Consts Gen.Schemas Base.Hex Codec.GenCodec Codec.RoundTrip Frame.Framing Rpc.ValueWire Rpc.Filters Rpc.FiltersProofs
-  Rpc.EndToEnd Rpc.EndToEndProofs Rpc.EndToEndConc Rpc.EndToEndCorr Rpc.EndToEndFull Rpc.EndToEndExamples.
+  Rpc.EndToEnd Rpc.EndToEndProofs Rpc.EndToEndConc Rpc.EndToEndCorr Rpc.EndToEndFull Rpc.EndToEndInvoke Rpc.EndToEndExamples.
 Import ListNotations.
 Open Scope N_scope.
 
@@ -94,6 +94,35 @@ Theorem C01_deep_out_argument_witness :
   args_typed env0 (fs_args dp_sig) [dp_chain 256 1; VInt 7] /\
   dp_call 256 = COk (Some (VInt 5)) [VStruct [VInt 1; VList []]] [] /\ dp_call 257 = CErr 1 sys_msg false.
 Proof. exact (conj EndToEndExamples.dp_257_typed (conj EndToEndExamples.dp_256_structs_pass EndToEndExamples.dp_257_structs_fail)). Qed.
+
+(* THE ERROR CLAUSE AT CODE 0 IS REFUTED: the full-strength error clause "whatever (code, message) the implementation
+   fails with, the caller gets an error with that code and message" holds for every code except 0 (C01_transparent_err:
+   any c <> 0 - negative, 1, MaxInt32, MinInt32 ..., any message, a plain error being (1, message)); with code 0, the
+   protocol's success marker, the caller of a void function gets SUCCESS and the caller of a function with results a
+   decode error with code 1 - on the model and on the code (known findings e2e/error-code-zero/...) *)
+Definition C01_error_clause_statement : Prop :=
+  forall impl f args c m, impl (fs_name f) (ins_of f args) [] [] = IFail c m ->
+    exists m' sys, fst (call env0 SR SP MAXP impl (filters_of inv_res no_filters) (filters_of disp_res no_filters) [f] f args [] false 41 [79] 3000)
+                   = CErr c m' sys.
+Theorem C01_error_code_zero_refuted :
+  fst (call env0 SR SP MAXP z_impl (filters_of inv_res no_filters) (filters_of disp_res no_filters) [z_void] z_void [] [] false 41 [79] 3000) = COk None [] []
+  /\ fst (call env0 SR SP MAXP z_impl (filters_of inv_res no_filters) (filters_of disp_res no_filters) [z_int] z_int [VInt 5; VInt 0] [] false 41 [79] 3000) = CErr 1 sys_msg true
+  /\ ~ C01_error_clause_statement.
+Proof.
+  split; [exact EndToEndExamples.z_code_zero_void_succeeds|]. split; [exact EndToEndExamples.z_code_zero_results_decode_error|].
+  intros H. destruct (H z_impl z_void [] 0%Z [98; 111; 111; 109] eq_refl) as (m' & sys & Hm). rewrite EndToEndExamples.z_code_zero_void_succeeds in Hm. discriminate Hm.
+Qed.
+
+(* THE SERVER SIDE OF THIS MODEL IS THE C10 MODEL OF Protocol.Invoke: for every request that is not a ping, without handle
+   timeout and queueing delay, C10's server_step (Rpc/Invoke.v; its response construction is tied to the source of
+   Protocol.Invoke by the translator, Props/C10.v) run with this model's dispatcher + implementation writes exactly the
+   reply of this model - the same packet, zero (one-way) or one, after one dispatcher call. With server_handle_pass
+   (pass-through filters) this covers [server_handle]. *)
+Theorem C01_server_side_is_C10_invoke : forall e impl i (cfg : I.config) (q : reqpkt),
+    I.c_ht cfg = 0 -> bytes_eqb (q_func q) I.ping_name = false ->
+    I.server_step (dispatch10 e impl i q) cfg (to10 q) 0 =
+    (map (fun p => (I.FromHandler, rsp10 p)) (olist (srv_reply e impl i q)), 1%nat).
+Proof. exact EndToEndInvoke.server_is_invoke. Qed.
 
 (* success, no codec hypothesis: well-formed schemas (tags ascending, defaults on scalars, by-value nesting <= k), the
    two packet schemas as regenerated from the code, any signature within the static size conditions, out arguments the
@@ -259,10 +288,36 @@ Theorem C01_concurrent_any_order : forall e k sid_req sid_rsp max impl (Ps : pfi
     forall q, In q qs -> client_conn e sid_rsp max chunks_p (q_id q) = srv_reply e impl i q.
 Proof. intros e k sid_req sid_rsp max impl Ps i qs sent cq written cp Hwf Hk Hq Hp Hm. exact (EndToEndFull.concurrent_closed e k Hwf Hk sid_req sid_rsp Hq Hp max Hm impl Ps i qs sent cq written cp). Qed.
 
+(* CONCURRENT CALLERS AT THE LEVEL OF CALL RESULTS: for any set of calls of the generated proxy whose requests (distinct
+   ids) share one connection - sent in any order, cut into any TCP segments, served and answered in any order, the reply
+   stream cut into any segments - what each caller gets ([conc_result]: its own decoded reply through the error mapping
+   and the proxy's decoder, nothing for a one-way call) is exactly what the same call returns when it is made alone. With
+   C01_transparent_ok / C01_transparent_err / C01_oneway: every concurrent caller gets the values, error or nothing its
+   own call of the implementation produced. What this does NOT cover (monitored only: concurrent batches and the 64 x 300
+   burst with byte-exact unique payloads): the goroutines, the pending-call table (C08) and the byte buffers of the real
+   client and server (sharing/pooling of buffers) - the model has values, not buffers. *)
+Theorem C01_concurrent_calls : forall e k sid_req sid_rsp max impl (Pc Ps : pfilters ev unit) i
+    (qs sent : list reqpkt) (chunks_q : list bytes) (written : list rsppkt) (chunks_p : list bytes),
+    wf_schema k e -> (k <= 40)%nat ->
+    fields_of e sid_req = schema_requestf_RequestPacket -> fields_of e sid_rsp = schema_requestf_ResponsePacket ->
+    max < 4294967296 ->
+    Permutation.Permutation sent qs -> NoDup (map q_id qs) ->
+    Forall (req_sendable e sid_req max) sent ->
+    concat chunks_q = concat (map (enc_req e sid_req) sent) ->
+    Permutation.Permutation written (server_conn e sid_req max impl (filters_of disp_res Ps) i chunks_q) ->
+    Forall (rsp_sendable e sid_rsp max) written ->
+    concat chunks_p = concat (map (enc_rsp e sid_rsp) written) ->
+    forall f args o ow id sv t, In (mkreq e f args o ow id sv t) qs ->
+      conc_result e sid_rsp max chunks_p f args o (mkreq e f args o ow id sv t) =
+      fst (call e sid_req sid_rsp max impl (filters_of inv_res Pc) (filters_of disp_res Ps) i f args o ow id sv t).
+Proof. intros e k sid_req sid_rsp max impl Pc Ps i qs sent cq written cp Hwf Hk Hq Hp Hm. exact (EndToEndFull.concurrent_calls e k Hwf Hk sid_req sid_rsp Hq Hp max Hm impl Pc Ps i qs sent cq written cp). Qed.
+
 Print Assumptions C01_transparent_ok_any_outs.
 Print Assumptions C01_prefilled_out_witness.
 Print Assumptions C01_minus_zero_witness.
 Print Assumptions C01_deep_out_argument_witness.
+Print Assumptions C01_error_code_zero_refuted.
+Print Assumptions C01_server_side_is_C10_invoke.
 Print Assumptions C01_transparent_ok.
 Print Assumptions C01_transparent_err.
 Print Assumptions C01_oneway.
@@ -277,3 +332,4 @@ Print Assumptions C01_filters_once.
 Print Assumptions C01_filters_run.
 Print Assumptions C01_concurrent_partial.
 Print Assumptions C01_concurrent_any_order.
+Print Assumptions C01_concurrent_calls.
